@@ -56,6 +56,12 @@ func (c *Ctx) thorough() bool { return c.Tier == "thorough" }
 // fn resolves an anchor function; unresolved anchors are recorded as failures.
 func (c *Ctx) fn(rel, recv, name string) *ssa.Function {
 	f := c.P.Func(rel, recv, name)
+	if (f == nil || len(f.Blocks) == 0) && recv != "" {
+		// the method may have been turned into a plain function of the package taking its receiver's data
+		if g := c.P.Func(rel, "", name); g != nil && len(g.Blocks) > 0 {
+			f = g
+		}
+	}
 	label := rel + "." + name
 	if recv != "" {
 		label = rel + ".(" + recv + ")." + name
@@ -687,4 +693,12 @@ func (c *Ctx) valueGuarded(v ssa.Value, sel IfArm, boolSucc bool, depth int) boo
 		}
 	})
 	return guarded
+}
+
+// blockComment is the comment of the block a branch sits in ("" for a synthetic branch without a block).
+func blockComment(i *ssa.If) string {
+	if i == nil || i.Block() == nil {
+		return ""
+	}
+	return i.Block().Comment
 }
